@@ -1400,6 +1400,93 @@ func c19ThirdHunt(ctx *Ctx, r *Report, o *omapInfo, fd *ast.FuncDecl, obj *types
 		r.Count("value comparisons of the ordered map", 1)
 		r.Check(len(c.Args) > 2, "omap/equal-handles-any-value", name+" compares values", c.Pos(), "go-cmp is told what to do with unexported fields",
 			name+" calls cmp.Equal without options: for a value type with unexported fields (a struct, a Map held by value) go-cmp panics `cannot handle unexported field` — Equal panics whether the contents are equal or not")
+		// one of the options is a Comparer over an interface that the Map *value* implements (a method with a value
+		// receiver): go-cmp does not find the pointer-receiver Equal on a Map held by value and would compare the
+		// fields `records` / `order`, telling nil from empty
+		byContent := false
+		for _, opt := range c.Args[2:] {
+			id, ok := ast.Unparen(opt).(*ast.Ident)
+			if !ok {
+				continue
+			}
+			v, ok := objOf(info, id).(*types.Var)
+			if !ok {
+				continue
+			}
+			// the declaration of the option
+			for _, file := range o.pkg.Syntax {
+				ast.Inspect(file, func(k ast.Node) bool {
+					vs, ok := k.(*ast.ValueSpec)
+					if !ok || len(vs.Names) != 1 || len(vs.Values) != 1 || info.Defs[vs.Names[0]] != v {
+						return true
+					}
+					call, ok := ast.Unparen(vs.Values[0]).(*ast.CallExpr)
+					if !ok || len(call.Args) != 1 {
+						return true
+					}
+					if cf := callee(info, call); cf == nil || cf.Name() != "Comparer" {
+						return true
+					}
+					fl, ok := ast.Unparen(call.Args[0]).(*ast.FuncLit)
+					if !ok || len(fl.Type.Params.List) == 0 {
+						return true
+					}
+					iface, ok := info.TypeOf(fl.Type.Params.List[0].Type).Underlying().(*types.Interface)
+					if !ok || iface.NumMethods() == 0 {
+						return true
+					}
+					// every method of the interface is declared on Map with a value receiver
+					all := true
+					for i := 0; i < iface.NumMethods(); i++ {
+						found := false
+						for _, mfd := range methodDeclsOf(o.pkg, o.mapT.Obj().Name()) {
+							if mfd.Name.Name != iface.Method(i).Name() || len(mfd.Recv.List) != 1 {
+								continue
+							}
+							if _, ptr := mfd.Recv.List[0].Type.(*ast.StarExpr); !ptr {
+								found = true
+							}
+						}
+						if !found {
+							all = false
+						}
+					}
+					if all {
+						byContent = true
+					}
+					return true
+				})
+			}
+		}
+		r.Check(byContent, "omap/equal-follows-maps-held-by-value", name+" compares values that can hold maps", c.Pos(), "a Comparer over an interface the Map value implements sends maps held by value to Equal",
+			name+" leaves maps held by value to go-cmp, which does not see the pointer-receiver Equal and compares `records` and `order` field by field: {x: *New()} and {x: a map emptied by Remove} both encode as {\"x\":{}} and are not Equal — nor is a map equal to its own JSON round trip")
 		return true
 	})
+}
+
+// methodDeclsOf: the method declarations of a (possibly generic) named type of the package, by syntax.
+func methodDeclsOf(p *packages.Package, typeName string) []*ast.FuncDecl {
+	var out []*ast.FuncDecl
+	for _, f := range p.Syntax {
+		for _, d := range f.Decls {
+			fd, ok := d.(*ast.FuncDecl)
+			if !ok || fd.Recv == nil || len(fd.Recv.List) != 1 {
+				continue
+			}
+			t := fd.Recv.List[0].Type
+			if st, ok := t.(*ast.StarExpr); ok {
+				t = st.X
+			}
+			switch x := t.(type) {
+			case *ast.IndexExpr:
+				t = x.X
+			case *ast.IndexListExpr:
+				t = x.X
+			}
+			if id, ok := t.(*ast.Ident); ok && id.Name == typeName {
+				out = append(out, fd)
+			}
+		}
+	}
+	return out
 }
